@@ -161,8 +161,9 @@ def _rename_locals(tree, suffix="_rn"):
     def walk(node, inside_fn):
         for ch in ast.iter_child_nodes(node):
             if isinstance(ch, (ast.FunctionDef, ast.AsyncFunctionDef)):
-                if not inside_fn:
-                    do(ch)
+                # outer functions first; a nested function's own locals were excluded from the outer pass (they are
+                # banned there), so they are renamed here, inside the nested function only
+                do(ch)
                 walk(ch, True)
             else:
                 walk(ch, inside_fn)
